@@ -26,6 +26,9 @@ ASSUMPTIONS = ["interruption points are the thread's shared-memory accesses and 
 
 
 def run(ctx):
+    import os
+    if os.environ.get("VERIF_C19_NOPARTS") == "1":       # (timing / debugging aid: the original body alone)
+        return run_body(ctx)
     part = sig_parts.Part(ctx)         # crcu_sig* (call_rcu interrupted), gp_sig_nest, gp_sig_sync: run next to the body below, merged at the end
     try:
         run_body(ctx)
